@@ -53,6 +53,10 @@ func sAdd(a, b string) string {
 	if ok2 && y.Sign() == 0 {
 		return a
 	}
+	if b == "(- g_abs "+a+")" || strings.HasPrefix(b, "(- g_qabs_") && strings.HasSuffix(b, " "+a+")") {
+		// off + (abs - off) = abs
+		return strings.TrimSuffix(strings.TrimPrefix(b, "(- "), " "+a+")")
+	}
 	return sApp("+", a, b)
 }
 func sSub(a, b string) string {
@@ -234,7 +238,9 @@ func vBool(s string) Val               { return Val{K: KBool, S: s, T: types.Typ
 func vRaw(s, sort string) Val          { return Val{K: KRaw, S: s, Sort: sort} }
 func (v Val) arr() string              { return v.Sub[0].S }
 func (v Val) off() string              { return v.Sub[1].S }
-func (v Val) length() string           { if v.K == KString { return v.Sub[1].S }; return v.Sub[2].S }
+func (v Val) length() string           { return v.Sub[2].S }
+func (v Val) soff() string             { return v.Sub[1].S }
+func (v Val) at(k string) string       { return sSel(v.Sub[0].S, sAdd(v.Sub[1].S, k)) }
 func (v Val) capa() string             { return v.Sub[3].S }
 func (v Val) content() string          { return v.Sub[0].S }
 
@@ -242,8 +248,8 @@ func mkSlice(t types.Type, arr, off, ln, cp string) Val {
 	it := types.Typ[types.Int]
 	return Val{K: KSlice, T: t, Sub: []Val{vInt(arr, it), vInt(off, it), vInt(ln, it), vInt(cp, it)}}
 }
-func mkString(t types.Type, content, ln string) Val {
-	return Val{K: KString, T: t, Sub: []Val{vRaw(content, "(Array Int Int)"), vInt(ln, types.Typ[types.Int])}}
+func mkString(t types.Type, content, off, ln string) Val {
+	return Val{K: KString, T: t, Sub: []Val{vRaw(content, "(Array Int Int)"), vInt(off, types.Typ[types.Int]), vInt(ln, types.Typ[types.Int])}}
 }
 
 // Comp describes one scalar SMT component of a flattened Go type.
@@ -427,7 +433,7 @@ func flatComps(t types.Type) []Comp {
 	case tcBool:
 		return []Comp{{"", "Bool", t, "bool"}}
 	case tcString, tcTParamSeq:
-		return []Comp{{".str", "(Array Int Int)", nil, "str"}, {".slen", "Int", nil, "slen"}}
+		return []Comp{{".str", "(Array Int Int)", nil, "str"}, {".soff", "Int", nil, "soff"}, {".slen", "Int", nil, "slen"}}
 	case tcSlice:
 		return []Comp{{".arr", "Int", nil, "arr"}, {".off", "Int", nil, "off"}, {".len", "Int", nil, "len"}, {".cap", "Int", nil, "cap"}}
 	case tcStruct:
@@ -482,7 +488,7 @@ func unflat1(t types.Type, terms []string) (Val, []string) {
 	case tcBool:
 		return Val{K: KBool, S: terms[0], T: t}, terms[1:]
 	case tcString, tcTParamSeq:
-		return mkString(t, terms[0], terms[1]), terms[2:]
+		return mkString(t, terms[0], terms[1], terms[2]), terms[3:]
 	case tcSlice:
 		return mkSlice(t, terms[0], terms[1], terms[2], terms[3]), terms[4:]
 	case tcStruct:
